@@ -9,12 +9,12 @@ TRUSTED_COMMON = [
 from engproj import compare_lines
 
 def eng(keys):
-    return lambda case, impl, model: compare_lines(impl, model, keys, long_lived=case.startswith('mode=long'))
+    return lambda case, impl, model: compare_lines(impl, model, keys, long_lived=case.startswith('mode=long'), no_lookup_log=' res=db' in case)
 
 ENGINE_TRUSTED = [
     "text/template is modelled for literal text and {{.name}} placeholders only (missingkey=error); generated inputs never contain '{' (an error prefix quoting such input would be parsed as a template action)",
     "CBOR round trip of the exported State/Cache fields is modelled as snapshot/restore; every persisted-mode case goes through the real persister and memory store",
-    "resource lookups and external functions are parameters of the model (tables in the case); lang.LanguageFromCode is a parameter filled from the codes used",
+    "resource lookups and external functions are parameters of the model (tables in the case); lang.LanguageFromCode is a parameter filled from the codes used; about a fifth of the cases are served through the library's own resource.DbResource over a mem or fs store holding the same tables (bytecode under BIN, templates under TEMPLATE, labels under MENU as <sym>_menu, translations under their language), so resource/db.go and the store's language fallback are inside the compared behaviour",
     "Vm.Run is structurally recursive on fuel (Cfg.fuel, 2000 in the driver; exhaustion is reported, never compared); theorems hold for every fuel",
     "error texts that reach a page as prefix are reproduced byte for byte for the VM's own messages; others are marked and compared by presence only",
 ]
